@@ -1,5 +1,6 @@
 pub mod c01;
 pub mod c02;
+pub mod c03;
 pub mod c04;
 pub mod c05;
 pub mod c06;
@@ -12,6 +13,7 @@ pub mod c12;
 pub mod c13;
 pub mod c18;
 pub mod c20;
+pub mod c28;
 pub mod c32;
 pub mod c38;
 pub mod c40;
@@ -51,6 +53,7 @@ pub fn run(prop: &str, args: &Args) -> i32 {
     match prop {
         "C01" => c01::run(args),
         "C02" => c02::run(args),
+        "C03" => c03::run(args),
         "C04" => c04::run(args),
         "C05" => c05::run(args),
         "C06" => c06::run(args),
@@ -66,6 +69,7 @@ pub fn run(prop: &str, args: &Args) -> i32 {
         "C20" => c20::run_c20(args),
         "C21" => c20::run_c21(args),
         "C22" => c20::run_c22(args),
+        "C28" => c28::run(args),
         "C32" => c32::run(args),
         "C38" => c38::run(args),
         "C40" => c40::run(args),
